@@ -39,6 +39,8 @@ def obligations(tier):
                   funcs=("chartparse.chart.Chart.from_file (whole pipeline, native execution)",),
                   bounds="30/120/400 parses in one fresh interpreter alternating two of four texts that share every tick but differ in tempo map / resolution, "
                          "each chart dropped at once (freed objects, recycled addresses): every parse identical to the first parse of its text"))
+    obs.append(Ob("C03.framing", "CH", "harness.h_chart", "framing", 300, funcs=("chartparse.chart.Chart._partition_lines_by_data_section",),
+                  bounds="3 sections x <=2 symbolic body lines of any length (blank lines included): this section's parser receives exactly its own body lines"))
     return obs
 
 
